@@ -473,6 +473,8 @@ class Interp:
                 return 1
             if n in self.w.enums or n.split('::')[-1] in self.w.enums:
                 return 2
+            if n.startswith('Eigen::'):
+                return -5
             return -1 if n in self.w.classes else 0
         if isinstance(v, (float, Fraction)) or is_sym(v):
             if n == 'double':
@@ -502,7 +504,7 @@ class Interp:
         return cands[0][1]
 
     # ---------------------------------------------------------------- invoke
-    def invoke(self, fd, args, this, arg_cells=None):
+    def invoke(self, fd, args, this, arg_cells=None, targs=None):
         key = strip_ns(fd.qname)
         stub = self.stubs.get(key) or self.stubs.get(key.split('::')[-1])
         if stub is not None:
@@ -512,6 +514,8 @@ class Interp:
         if self.depth > 60:
             raise EvalError('call depth')
         fr = Frame(fd, this)
+        if fd.template and targs:
+            fr.tbind = {n: (t if isinstance(t, Type) else t) for n, t in zip(fd.template, targs)}
         for i, p in enumerate(fd.params):
             if i < len(args):
                 a = args[i]
@@ -670,6 +674,9 @@ class Interp:
 
     def zero_of_type(self, ty, path=None, symbolic=None):
         n = strip_ns(ty.name)
+        tb = self.tbind_lookup(n) if self.frames else None
+        if tb is not None:
+            n = tb
         if ty.ptr:
             return None
         if n in ('double', 'float'):
@@ -792,6 +799,16 @@ class Interp:
                 if c is not None:
                     return c
                 cf = getattr(cf, 'closure_parent', None)
+        return None
+
+    def tbind_lookup(self, name):
+        for fr in reversed(self.frames):
+            tb = getattr(fr, 'tbind', None)
+            if tb and name in tb:
+                t = tb[name]
+                return ' '.join(strip_ns(t.name).split()) if isinstance(t, Type) else str(t)
+            if fr.fd is not None:
+                break
         return None
 
     def this_obj(self):
@@ -986,12 +1003,14 @@ class Interp:
             raise ContinueSig()
         if k is Try:
             return self.exec_try(s)
-        if k is Empty:
+        if k is Empty or k is LocalClass:
             return
         if k is RangeFor:
             rng = self.ev(s.range)
             if isinstance(rng, Mat):
                 rng = rng.elems()
+            if isinstance(rng, PyModel):
+                rng = rng.iterate(self)
             if not isinstance(rng, (list, tuple)):
                 raise Unsupported('range-for over %r' % (rng,))
             fr = self.frames[-1]
@@ -1234,6 +1253,14 @@ class Interp:
             n = strip_ns(e.name)
             if n.startswith('std::numeric_limits'):
                 raise Unsupported('numeric_limits used as value')
+            if n == 'std::is_same<>::value':
+                names = []
+                for t in e.targs:
+                    tn = ' '.join(strip_ns(t.name).split()) if isinstance(t, Type) else str(t)
+                    tb = self.tbind_lookup(tn)
+                    names.append(tb if tb is not None else tn)
+                self.fire('is_same-evaluated')
+                return names[0] == names[1]
             if n.startswith('std::is_') or n.endswith('<>::value'):
                 raise Unsupported('type trait')
         return self.lookup_name(e.name)
@@ -1282,7 +1309,11 @@ class Interp:
         if n in self.w.enums or n.split('::')[-1] in self.w.enums:
             return self.convert(v, Type('int', None, False, False, 0))
         if n in ('int', 'unsigned', 'long') and is_sym(v) and z3.is_real(v):
-            raise Unsupported('symbolic float->int cast (decided by back end A)')
+            # the conversion is defined only if the (truncated) value is representable: side obligation (C14)
+            lo, hi = (0, 2**32 - 1) if n == 'unsigned' else (-2**31, 2**31 - 1)
+            self.side(z3.And(v > lo - 1, v < hi + 1), 'conversion: float->%s defined (value in range) at %s:%d' % (n, self.cur_file(), self.cur_line))
+            self.fire('float->int-cast')
+            return z3.ToInt(v)
         return self.convert(v, e.type)
 
     def ev_Construct(self, e):
@@ -1300,7 +1331,9 @@ class Interp:
         if op in ('++', '--'):
             g, s = self.lvalue(e.e)
             cur = g()
-            if isinstance(cur, tuple) and cur and cur[0] == 'vit':
+            if isinstance(cur, PyModel) and hasattr(cur, 'advance'):
+                v = cur.advance(self, 1 if op == '++' else -1)
+            elif isinstance(cur, tuple) and cur and cur[0] == 'vit':
                 v = ('vit', cur[1], cur[2] + (1 if op == '++' else -1))
             else:
                 v = add(cur, 1) if op == '++' else sub(cur, 1)
@@ -1312,6 +1345,8 @@ class Interp:
                 return v.v
             if isinstance(v, tuple) and v and v[0] == 'vit':
                 return v[1][v[2]]
+            if isinstance(v, PyModel) and hasattr(v, 'deref'):
+                return v.deref(self)
             return v     # pointers to objects are the objects
         if op == '&':
             c = self.try_lvalue_cell(e.e)
@@ -1391,6 +1426,9 @@ class Interp:
                 return l
             return mod(l, r)
         if op in ('<', '>', '<=', '>=', '==', '!='):
+            if isinstance(l, PyModel) and hasattr(l, 'equals'):
+                eqv = l.equals(r)
+                return eqv if op == '==' else (not eqv)
             if isinstance(l, PyModel) or isinstance(r, PyModel) or (isinstance(l, tuple) and l and l[0] in ('iter', 'vit')) or (isinstance(r, tuple) and r and r[0] in ('iter', 'vit')):
                 if isinstance(l, tuple) and isinstance(r, tuple) and l[0] == 'vit' and r[0] == 'vit':
                     eqv = (l[1] is r[1] and l[2] == r[2])
@@ -1634,7 +1672,7 @@ class Interp:
                 ms = self.w.find_method(this.cls, s)
                 if ms:
                     fd = self.resolve_overload(ms, args, s)
-                    return self.invoke(fd, args, this, cells)
+                    return self.invoke(fd, args, this, cells, targs=f.targs)
             if this is not None and '::' in s:
                 # Base::method(...)
                 cls_part, last = s.rsplit('::', 1)
@@ -1646,6 +1684,10 @@ class Interp:
             fds = self.w.find(s)
             # free functions only (or static members)
             fds_free = [x for x in fds if x.cls is None or x.static]
+            if not fds_free and '::' in s and s.rsplit('::', 1)[0] in self.w.classes:
+                # Class::function(...) without an object: a static member function (declared static in the class definition only)
+                fds_free = list(fds)
+                self.fire('static-member-call')
             cur0 = self.frames[-1].file if self.frames else None
             fds_free = [x for x in fds_free if not (getattr(x, 'anon', False) and x.file != cur0 and x.file.endswith('.cpp'))]
             # prefer definitions from the current file (anonymous namespaces)
@@ -1657,7 +1699,7 @@ class Interp:
                     fd = self.resolve_overload(pool, args, s)
                 except Unsupported:
                     fd = self.resolve_overload(fds_free, args, s)
-                return self.invoke(fd, args, None, cells)
+                return self.invoke(fd, args, None, cells, targs=f.targs)
             if s in self.w.classes or s.split('::')[-1] in self.w.classes:
                 return self.construct(Type(s if s in self.w.classes else s.split('::')[-1], None, False, False, 0), args, False)
             v = self.unknown_call(s, args)
@@ -1979,6 +2021,15 @@ class Interp:
             if what == 'Ones':
                 return self.mat_method(m, 'setConstant', [1.0 if self.mode == 'float' else 1])
             raise Unsupported(s)
+        if s.startswith('std::numeric_limits') and f.targs and isinstance(f.targs[0], Type) and strip_ns(f.targs[0].name) in ('int', 'unsigned', 'long', 'unsigned int'):
+            what = s.split('::')[-1]
+            tn = strip_ns(f.targs[0].name)
+            lo, hi = {'int': (-2**31, 2**31 - 1), 'unsigned': (0, 2**32 - 1), 'unsigned int': (0, 2**32 - 1), 'long': (-2**63, 2**63 - 1)}[tn]
+            if what in ('min', 'lowest'):
+                return lo
+            if what == 'max':
+                return hi
+            raise Unsupported(s)
         if s.startswith('std::numeric_limits'):
             what = s.split('::')[-1]
             if what == 'epsilon':
@@ -2051,6 +2102,18 @@ class Interp:
         if s in ('std::pow', 'pow'):
             a = A()
             return self.m_pow(a[0], a[1])
+        if s in ('std::modf',):
+            a = A()
+            tgt = a[1]
+            if self.mode == 'float':
+                fr_, ip = math.modf(float(a[0]))
+                tgt.v = ip
+                return fr_
+            x = z3real(a[0])
+            ip = z3.ToReal(z3.ToInt(x))          # contract used: modf(x,&ip) == 0  <=>  x is integral  (ip = floor x here)
+            self.fire('modf-contract')
+            tgt.v = ip
+            return x - ip
         if s in ('std::fmod',):
             a = A()
             if self.mode == 'float':
@@ -2151,6 +2214,8 @@ class Interp:
             raise Unsupported(s + ' on symbolic data')
         if s in ('std::ostringstream', 'std::stringstream'):
             return Stream()
+        if s in ('boost::lexical_cast', 'lexical_cast'):
+            return str(A()[0])[:40]
         if s == 'boost::format':
             return FormatObj(A()[0])
         if s in ('std::setprecision', 'std::setw', 'std::setfill'):
